@@ -10,9 +10,11 @@ D-c  polarity: every filter is `frequency >= threshold`, frequency being directl
 D-d  forwarding: every function with a threshold parameter receives the API argument at every
      call site (no silent default); the direct and inverse candidate builders are twins;
 D-e  the merge's "useless positive closure" predicate keeps its probability guard (decision table).
+D-f  nothing observed is omitted on the way out: the buffered ShExC writer delivers every line handed to its sink
+     exactly once whatever the size of the document (R-PROTO, sa.rules.writer).
 Undecided: key preservation by the merge itself (value level, see C02)."""
 from ..report import Ob, Floor
-from ..rules import threshold, twin
+from ..rules import writer, threshold, twin
 from ..abseval import Evaluator
 from .. import exceptions
 
@@ -64,6 +66,7 @@ def check(ctx, tier):
     obs += threshold.forwarding_obligations(ctx, tf, "D-d")
     obs += twin.check_pairs(ctx, "D-d", "C12")
     obs += useless_closure_table(ctx, "D-e")
+    obs += ctx.attempt(lambda c, cl: writer.protocol(c, cl)[0], ctx, "D-f", default=[])
     exceptions.apply(obs)
     floors = [Floor("threshold filter comparisons", len(tf.filters), 3), Floor("range-check comparisons", len(tf.range_checks), 2),
               Floor("functions that see the threshold", len(tf.tainted_funcs), 8), Floor("candidate construction sites", n_sites, 3)]
